@@ -8,6 +8,7 @@
 import GocoinV.Proofs.C16Inv
 import GocoinV.Proofs.C16Snappy
 import GocoinV.Proofs.C16Walk
+import GocoinV.Proofs.C16Main
 namespace GocoinV.Props.C16
 open GocoinV GocoinV.BlockDB
 
@@ -151,21 +152,72 @@ theorem snappy_copy_split (dst : Array UInt8) (offset a c : Nat) :
 theorem snappy_roundtrip_sample :
     (Snappy.decode (Snappy.encode [1, 2, 3, 4, 5])).toOption = some [1, 2, 3, 4, 5] := by decide
 
+/-- snappy, all inputs: decoding the encoder's output gives back the source, for every byte string whose length fits
+    the format's 32-bit length header (`Encode` panics with ErrTooLarge above that). This is about the model's real
+    encoder — hash table, skip heuristic, 64 KiB pieces, 64/60 copy splitting — not an abstraction of it: the proof
+    carries the loop invariant "what was emitted so far expands to src[0..nextEmit)", every candidate is below `s`
+    and verified byte by byte before a copy is emitted (Proofs/C16SnappyRT.lean). -/
+theorem snappy_roundtrip (src : Bytes) (h : src.length ≤ 0xffffffff) :
+    Snappy.decode (Snappy.encode src) = .ok src :=
+  Snappy.snappy_roundtrip src h
+
+example : ([1, 2, 3] : Bytes).length ≤ 0xffffffff := by decide
+
+/-! ## store_refines_map: the store against the durable-map specification (`Spec/BlockStoreMap.lean`) -/
+
+/-- One session on a fresh directory, any codec that round-trips: for EVERY sequence of add / get / length /
+    mark-trusted / mark-invalid / idle-flush / close (blocks below 4 GiB; cache size, compression, maximum data-file
+    size arbitrary — roll-over included; `keep = 0`, i.e. no data file is ever removed), every `get` of a key that was
+    added and never marked invalid returns the bytes of its first add and the latest trusted flag, and every `length`
+    returns that block's size — from the cache or from disk, compressed or not, written or still queued
+    (`specRun` lists the claims, `AllHold` says each reply satisfies its claim).
+    `_partial`: the history contains no restart after the first open, and retention is off (see OPEN below). -/
+theorem store_refines_map_partial (env : Env)
+    (hrt : ∀ x : Bytes, x.length ≤ 0xffffffff → env.dec (env.enc x) = some x) (hne : ∀ x, env.enc x ≠ [])
+    (o : Opts) (hk : o.keep = 0) (ops : List Op) (hops : ∀ op ∈ ops, op.isReopen = false ∧ op.sizeOK) :
+    AllHold (specRun {} (.reopen o :: ops)) (run env init (.reopen o :: ops)).2 :=
+  session_refines env ⟨hrt, hne⟩ o hk ops hops
+
+/-- the specification makes real claims: on this history it demands A's bytes from the `get` and 81 from `length` -/
+example : specRun {} [.reopen optsW, .add (hashW blkA) 10 1 false blkA, .idle, .get (hashW blkA), .length (hashW blkA) true]
+    = [.nothing, .nothing, .nothing, .data blkA false, .len 81] := by decide
+
+/-- The same with the codec the store really uses — the snappy model, exactly the environment `oracle_c16` runs and the
+    harness compares with the Go code (any header-hash function): no hypothesis about the codec is left. -/
+theorem store_refines_map_snappy_partial (hash : Bytes → Bytes) (adv : Bool)
+    (o : Opts) (hk : o.keep = 0) (ops : List Op) (hops : ∀ op ∈ ops, op.isReopen = false ∧ op.sizeOK) :
+    AllHold (specRun {} (.reopen o :: ops)) (run (snappyEnv hash adv) init (.reopen o :: ops)).2 :=
+  session_refines _ (snappyEnv_ok hash adv) o hk ops hops
+
+example : ∀ op ∈ [Op.add (hashW blkA) 10 1 false blkA, .idle, .get (hashW blkA)], op.isReopen = false ∧ op.sizeOK := by
+  intro op h
+  simp only [List.mem_cons, List.not_mem_nil, or_false] at h
+  rcases h with h | h | h <;> subst h <;> exact ⟨rfl, by simp [Op.sizeOK, blkA, mkBlock]⟩
+
+/-- The data-file half of the invariant, as a statement of its own: in every state reached in such a session, every
+    key that was added and never marked invalid has an index record; while it is unwritten its block is in the cache
+    (and the cache never evicts it); once written, the record's [fpos, fpos+blen) lies inside its data file, at or below
+    the append position of the current file, and decodes to the block. -/
+theorem data_file_invariant (env : Env)
+    (hrt : ∀ x : Bytes, x.length ≤ 0xffffffff → env.dec (env.enc x) = some x) (hne : ∀ x, env.enc x ≠ [])
+    (s : State) (sp : Spec) (h : Ref env s sp) (op : Op) (hno : op.isReopen = false) (hsz : op.sizeOK) :
+    Ref env (step env s op).1 (specStep sp op) :=
+  (step_ref env ⟨hrt, hne⟩ s sp h op hno hsz).1
+
 /-
-  OPEN: snappy_roundtrip : ∀ src, src.length ≤ 0xffffffff → Snappy.decode (Snappy.encode src) = .ok src
-        (missing: the loop invariant of `scan`/`copyLoop` — every emitted element list expands to the consumed
-         prefix of src, every candidate is < s — and the varint header round trip; the emit-level lemmas above
-         are the per-element steps of that proof. Tested by correspondence on both encoder builds.)
-  OPEN: store_refines_map : ∀ ops, every `get` of a stored, non-invalid, retained block returns the stored bytes
-        and the latest trusted flag (needs the data-file half of the invariant: every written record's
-        [fpos, fpos+blen) lies below maxdatfilepos of its file and decodes to the block; unwritten blocks are in
-        the cache and never evicted). Decided on every generated history by the Go-map reference of the harness.
+  OPEN: store_refines_map, full strength : the statement of `store_refines_map_partial` for histories WITH close + reopen
+        in the middle and for `keep ≠ 0` (then with "or the block's data file fell out of retention" in the claim).
+        Missing: (1) the index-file half linking records to operations across a restart — one `mkRecord` per written
+        block at its `ipos`, flag bytes only OR-ed there, LoadBlockIndex rebuilds every non-invalid record's
+        (fpos, blen, datfileidx, olen, flags) and an append position at or above every listed record's data; (2) retention.
+        NOTE (2) is not a formality: the known finding `backup-shadowed-by-new-file` (known_findings.txt) is a history with
+        keep=1, backup=true on which the statement is FALSE of the code. Decided on every generated history (restarts,
+        retention, option changes included) by the Go-map reference of the harness.
   OPEN: reopen_index (listing part, history level) : the walk after a restart lists exactly the stored non-invalid
-        blocks of the HISTORY (missing: the invariant linking the index file's records to the operations — one
-        `mkRecord` per written block, flag bytes only OR-ed at whole-record positions). Proved so far: the
-        position part for all histories (`append_position_invariant`), and at record level that the walk is
-        exactly the non-invalid records (`reopen_lists_noninvalid_records`) and that a written record lists with
-        the block's own fields (`written_record_listed`).
+        blocks of the HISTORY with height/size/txcount. Proved so far: the position part for all histories
+        (`append_position_invariant`), at record level that the walk is exactly the non-invalid records
+        (`reopen_lists_noninvalid_records`) and that a written record lists with the block's own fields
+        (`written_record_listed`); missing is the same index-file invariant as in (1).
 -/
 
 end GocoinV.Props.C16
